@@ -4,7 +4,7 @@ Re-uses the class-level harnesses (each executes the real fit and transform on a
 independent symbolic transform batch: unseen tokens / labels / characters / phrases, empty items, items shorter than
 n are ordinary feasible paths) with the shape / column-meaning / no-exception assertions selected.
 """
-from harness import cls_ngram, cls_edgelist, cls_skipgram, C16_lz, C09_bpe, cls_cooc
+from harness import cls_ngram, cls_edgelist, cls_skipgram, C16_lz, C09_bpe, cls_cooc, cls_cooc_family
 
 
 def cases(tier):
@@ -12,4 +12,5 @@ def cases(tier):
     cs += [c for c in C16_lz.cases(tier)]
     cs += [c for c in C09_bpe.cases(tier) if c.name.startswith("bpe_matrix")]
     cs += [c for c in cls_cooc.cases(tier, props=("C01",)) if "tr=-" not in c.name]
+    cs += [c for c in cls_cooc_family.cases(tier) if "tr=None" not in c.name]
     return cs
